@@ -13,6 +13,7 @@ import json
 import os
 
 from mc import core, env, mibspec, pysnmp_rec, refir, v1stubs
+from mc.env import error
 
 BOUNDS = {
     'quick': 'imports: all 195+17+2 (module, symbol) pairs; equivalence: every v1 type x 4 ACCESS words, tables with 1-2 '
@@ -38,10 +39,10 @@ STUB_NAMES = ('SNMPv2-SMI', 'SNMPv2-TC', 'SNMPv2-CONF', 'RFC1155-SMI', 'RFC1065-
               'RFC1213-MIB', 'RFC1158-MIB', 'SNMPv2-MIB', 'IF-MIB', 'IP-MIB', 'TCP-MIB', 'UDP-MIB')
 
 
-def compile_v(texts, requested, backend):
+def compile_v(texts, requested, backend, dialect='smiV1Relaxed'):
     alltexts = dict(stubs())
     alltexts.update(texts)
-    parser = env.shared_parser('smiV1Relaxed')
+    parser = env.shared_parser(dialect)
     parser.reset()
     return env.compile_set(alltexts, requested, codegen=backend, dialect=parser, stubs=STUB_NAMES)
 
@@ -227,7 +228,7 @@ SHAPES = [('scalar', (t, a)) for t in range(len(V1_TYPES)) for a in range(len(AC
 SEQ_SHAPES = [('scalar', (1, 0)), ('scalar', (5, 1)), ('table', (1, 0)), ('table', (2, 1)), ('trap', 1), ('node', 0)]
 
 
-def compare(shapes, sig):
+def compare(shapes, sig, dialect='smiV1Relaxed'):
     v1d = fixed_context(False)
     v2d = fixed_context(True)
     for i, sh in enumerate(shapes):
@@ -240,9 +241,12 @@ def compare(shapes, sig):
     docs = {}
     steps = 0
     for backend in ('json', 'pysnmp'):
-        r1, w1 = compile_v({'V1TEST-MIB': t1}, ['V1TEST-MIB'], backend)
+        r1, w1 = compile_v({'V1TEST-MIB': t1}, ['V1TEST-MIB'], backend, dialect)
         r2, w2 = compile_v({'V2TEST-MIB': t2}, ['V2TEST-MIB'], backend)
         steps += 2
+        if dialect != 'smiV1Relaxed' and r1.get('V1TEST-MIB') == 'failed' and \
+                isinstance(getattr(r1['V1TEST-MIB'], 'error', None), error.PySmiLexerError):
+            return 'refused-by-the-dialect', [], steps     # a grammar without the SMIv1 words need not take every SMIv1 text
         if r1.get('V1TEST-MIB') != 'compiled' or r2.get('V2TEST-MIB') != 'compiled':
             vs.append(('%s|%s|not-compiled|v1=%s|v2=%s' % (sig, backend, r1.get('V1TEST-MIB'), r2.get('V2TEST-MIB')),
                        '%s\n%r\n%s\n%r' % (t1, getattr(r1.get('V1TEST-MIB'), 'error', None), t2,
@@ -348,6 +352,29 @@ class Equivalence(object):
         if len(shapes) == 1 and shapes[0][0] == 'scalar-defval':
             label += ':' + V1_TYPES[shapes[0][1]][0]
         return compare(shapes, 'C16|equiv|%s' % label)
+
+
+class EquivalenceOtherDialects(Equivalence):
+    name = 'equivalence-under-the-other-dialects'
+    describe = ('the single shapes again, the SMIv1 text parsed by the strict SMIv2 dialect (where Counter, Gauge, NetworkAddress are '
+                'plain type names; the package\'s own tests read SMIv1 this way) and by the SMIv1 dialect: whenever the dialect takes '
+                'the text, the result equals the transliteration\'s')
+
+    def blocks(self, tier):
+        return [{'single': [i, min(i + 8, len(SHAPES))], 'd': d} for i in range(0, len(SHAPES), 8) for d in ('smiV2', 'smiV1')]
+
+    def cases(self, block, tier):
+        for i in range(*block['single']):
+            yield {'shapes': [i], 'seq': 0, 'd': block['d']}
+
+    def run_case(self, case):
+        shapes = [SHAPES[i] for i in case['shapes']]
+        label = '+'.join(sorted(set(s[0] for s in shapes)))
+        if shapes[0][0] == 'scalar':
+            label += ':' + V1_TYPES[shapes[0][1][0]][0]
+        if shapes[0][0] == 'scalar-defval':
+            label += ':' + V1_TYPES[shapes[0][1]][0]
+        return compare(shapes, 'C16|equiv-%s|%s' % (case['d'], label), case['d'])
 
 
 class TypeIndex(object):
@@ -553,4 +580,4 @@ class ForeignTrapVariables(object):
         return repr(out), vs, 4
 
 
-FAMILIES = [Imports(), Equivalence(), TypeIndex(), RenamedUses(), MixedImports(), ForeignTrapVariables()]
+FAMILIES = [Imports(), Equivalence(), EquivalenceOtherDialects(), TypeIndex(), RenamedUses(), MixedImports(), ForeignTrapVariables()]
